@@ -8,6 +8,7 @@ from conda_content_trust import authentication as A
 from vlib import cfgunit, configrun, gen_envelope as GE, gen_json as G, gen_metadata as GM, keys, ref_openpgp, ref_verify as RV, related
 from vlib.ref_canon import canon
 from vlib.runner import Unit, Violation
+from vlib import clicheck as _clicheck
 from vlib import threaded as _threaded
 from vlib import interfere as _interfere, interrupt as _interrupt
 
@@ -271,4 +272,5 @@ UNITS = [
          doc="3 keys x 6 entry states x 8 authorized subsets x thresholds 1..4 x 2 modes, complete"),
     _interfere.unit_after(PROPERTY, 'signable', quick=150, thorough=6000),
     _threaded.unit_threads(PROPERTY),
+    _clicheck.unit_cli(),
 ]
